@@ -145,6 +145,9 @@ pub enum Variant {
     DotDot,
     /// `a/../g`
     Through,
+    /// the base is the empty path and the expression spells the tree root relative to the
+    /// working directory: `escape(rel tree root)/g`
+    EmptyBase,
 }
 
 pub fn variant_name(v: Variant) -> &'static str {
@@ -154,6 +157,7 @@ pub fn variant_name(v: Variant) -> &'static str {
         Variant::Dot => "dot",
         Variant::DotDot => "dotdot",
         Variant::Through => "through",
+        Variant::EmptyBase => "emptybase",
     }
 }
 
@@ -163,6 +167,7 @@ pub fn variant_from(n: &str) -> Variant {
         "dot" => Variant::Dot,
         "dotdot" => Variant::DotDot,
         "through" => Variant::Through,
+        "emptybase" => Variant::EmptyBase,
         _ => Variant::Plain,
     }
 }
@@ -202,6 +207,14 @@ pub fn variant_setup(place: &Place, world: &World, g: &str, v: Variant, sp: Spel
             }
             world.root.children().iter().find(|c| c.name == "a" && c.is_dir())?;
             Some((join("a/../"), base, "a/../".to_string()))
+        },
+        Variant::EmptyBase => {
+            if g.starts_with('/') || g.starts_with("**") {
+                return None;
+            }
+            let rel = place.rel.to_string_lossy().to_string();
+            let esc = wax::escape(&rel).to_string();
+            Some((join(&format!("{}/", esc)), PathBuf::new(), format!("{}/", rel)))
         },
     }
 }
@@ -355,7 +368,7 @@ fn c02_classify(variant: Variant, o: &WalkOutcome) -> Option<String> {
             }
             None
         },
-        Variant::Plain => None,
+        Variant::Plain | Variant::EmptyBase => None,
     }
 }
 
@@ -412,7 +425,7 @@ pub fn c02_c14(tier: Tier, which: &'static str) -> i32 {
                 }
             }
             for g in &plan.special_globs {
-                for v in [Variant::Rooted, Variant::Dot, Variant::DotDot, Variant::Through] {
+                for v in [Variant::Rooted, Variant::Dot, Variant::DotDot, Variant::Through, Variant::EmptyBase] {
                     runs.push((g.as_str(), v, Spelling::Abs, LinkBehavior::ReadFile));
                 }
             }
@@ -559,6 +572,46 @@ pub fn c02_c14(tier: Tier, which: &'static str) -> i32 {
         rep.merge(&c);
     };
     plan.worlds.par_iter().for_each(|w| check_world(w, &plan.globs, true));
+    // worlds with symbolic links, pruning globs, both link behaviours (reference traversal with
+    // walkdir's link policy, shared with C15)
+    if which == "C02" {
+        use crate::props_links::{judge_depth_public, link_worlds, run_depth_walk, DepthSpec};
+        let lworlds = link_worlds(tier);
+        rep.add("link_worlds", lworlds.len() as u64);
+        let pruning = ["{a,b}/**", "a/*", "*/a", "?/*", "b/**", "[!l]*/**", "[!l]/[!l]", "<[ab]:1,2>/**", "l/*", "**/l/*"];
+        lworlds.par_iter().for_each(|world| {
+            let mut c = Counters::new();
+            let place = fswalk::place(&scratch, world);
+            for g in pruning {
+                for link in [LinkBehavior::ReadFile, LinkBehavior::ReadTarget] {
+                    match run_depth_walk(&place, world, g, link, &DepthSpec::Unbounded) {
+                        Ok(Some(o)) => {
+                            bump(&mut c, "walks", 1);
+                            bump(&mut c, "link_world_walks", 1);
+                            let (problems, _) = judge_depth_public(&o, false);
+                            if !problems.is_empty() {
+                                rep.alarm(Alarm {
+                                    class: None,
+                                    key: format!("links {} {} {}", world.describe(), g, link_name(link)),
+                                    msg: format!("walk of `{}` ({}) in {}: {}", g, link_name(link), world.describe(), problems.join("; ")),
+                                    case: json!({"kind": "depthwalk", "world": world_json(world), "glob": g, "link": link_name(link), "depth": {"k": "unbounded"}}),
+                                });
+                            }
+                        },
+                        Ok(None) => {},
+                        Err(msg) => rep.alarm(Alarm {
+                            class: None,
+                            key: format!("links fail {} {}", world.describe(), g),
+                            msg: format!("walk of `{}` in {} fails: {}", g, world.describe(), msg),
+                            case: json!({"kind": "depthwalk", "world": world_json(world), "glob": g, "link": link_name(link), "depth": {"k": "unbounded"}}),
+                        }),
+                    }
+                }
+            }
+            drop(place);
+            rep.merge(&c);
+        });
+    }
     if !extra_globs.is_empty() {
         // thorough: larger globs on the smaller worlds
         let only_new: Vec<String> = extra_globs.iter().filter(|g| !plan.globs.contains(g)).cloned().collect();
